@@ -8,6 +8,7 @@ import RigModel.Lemmas.C02Complete
 import RigModel.Lemmas.C02Init
 import RigModel.Lemmas.C02SA
 import RigModel.Lemmas.C02Doc
+import RigModel.Lemmas.C02Complete2
 set_option linter.unusedSimpArgs false
 set_option linter.unusedVariables false
 
@@ -703,6 +704,87 @@ theorem seqPlace_complete_unit (vr : VR) (cs : List Constraint) (m m' : Machine)
       simp only [Option.getD_some] at hpf
       simp [hA, hprep, bind, Except.bind, substOrder, hemp, hpf, finalise, finaliseFrom]
 
+/-- what the unit-demand hypotheses give before the placement loops start -/
+private theorem unit_setup {vr : VR} {cs : List Constraint} {m m' : Machine} {fixed : Placement} {r0 : Nat}
+    (hnodup : (keys vr).Nodup) (hcap : NonNegCap m)
+    (hnosame : ∀ vs, Constraint.same vs ∉ cs)
+    (hunit : ∀ v d, (v, d) ∈ vr → UnitDem r0 d)
+    (hprep : prepareLoop vr cs m [] = .ok (m', fixed)) :
+    applySame vr cs = .ok (vr, cs, []) ∧ NN m' ∧
+    (∀ v ∈ keys vr, ∃ d, aget vr v = some d ∧ UnitDem r0 d) := by
+  have hA : applySame vr cs = .ok (vr, cs, []) := applySameLoop_noSame vr cs [] hnosame _ _
+  have hnn : NonNegVR vr := by
+    intro v d hvd i
+    have hu := hunit v d hvd
+    by_cases e : i = r0
+    · subst e; rcases hu.2 with h | h <;> omega
+    · rw [hu.1 i e]; omega
+  have I := inv_after_prepare hnodup hnn hcap hprep
+  refine ⟨hA, fun c hc => I.nonneg c (by rw [← I.ok_eq]; exact hc), fun v hv => ?_⟩
+  have := (aget_isSome_iff vr v).2 hv
+  cases hx : aget vr v with
+  | none => simp [hx] at this
+  | some d => exact ⟨d, rfl, hunit v d (aget_some_mem hx)⟩
+
+/-- **Completeness (random placer) under the unit-demand hypothesis.**  Same hypotheses as
+`seqPlace_complete_unit` (the chip list is `list(machine)`): for EVERY sequence of draws the random
+placer succeeds - the only other outcome of the model is `BadOracle`, i.e. the sequence of draws is
+not one the RNG can produce (a chip outside the remaining candidates, or too few draws). -/
+theorem randPlace_complete_unit (vr : VR) (cs : List Constraint) (m m' : Machine) (fixed : Placement)
+    (picks : List Chip) (r0 : Nat)
+    (hnodup : (keys vr).Nodup) (hcap : NonNegCap m)
+    (hnosame : ∀ vs, Constraint.same vs ∉ cs)
+    (hunit : ∀ v d, (v, d) ∈ vr → UnitDem r0 d)
+    (hprep : prepareLoop vr cs m [] = .ok (m', fixed))
+    (hne : m'.chips ≠ [])
+    (hsuff : needOf fixed vr r0 (keys vr) ≤ total m' m'.chips r0) :
+    (∃ p, randPlace vr cs m picks = .ok p) ∨ randPlace vr cs m picks = .error .badOracle := by
+  obtain ⟨hA, hNN, hunit'⟩ := unit_setup hnodup hcap hnosame hunit hprep
+  unfold randPlace
+  simp only [hA, hprep, bind, Except.bind]
+  rw [needOf_filter] at hsuff
+  cases hL : randLoop vr picks (List.filter (fun v => !(aget fixed v).isSome) (keys vr)) m'.chips m' fixed with
+  | ok pf => left; exact ⟨pf, by simp [finalise, finaliseFrom]⟩
+  | error e =>
+    right
+    have := randLoop_complete vr r0 picks _ _ _ _ e (chips_nodup m') hne
+      (fun c hc => (mem_chips_iff m' c).1 hc) hNN
+      (fun v hv => hunit' v (List.mem_filter.1 hv).1) hsuff hL
+    subst this; rfl
+
+/-- **Completeness (annealer's initial placement) under the unit-demand hypothesis.**  Same
+hypotheses; for EVERY outcome of the two shuffles (`locs` a permutation of `list(machine)`, `vs` a
+permutation of the movable vertices) the initial placement - which is what `sa.place` returns on the
+trivial-solution path and what the kernel starts from - succeeds. -/
+theorem saPlace_initial_complete_unit (vr : VR) (cs : List Constraint) (m m' : Machine) (fixed : Placement)
+    (locs : List Chip) (vs : List Vtx) (r0 : Nat)
+    (hnodup : (keys vr).Nodup) (hcap : NonNegCap m)
+    (hnosame : ∀ vs, Constraint.same vs ∉ cs)
+    (hunit : ∀ v d, (v, d) ∈ vr → UnitDem r0 d)
+    (hprep : prepareLoop vr cs m [] = .ok (m', fixed))
+    (hlocs : locs.Perm m'.chips)
+    (hvs : vs.Perm ((keys vr).filter fun v => !(aget fixed v).isSome))
+    (hne : m'.chips ≠ [])
+    (hsuff : needOf fixed vr r0 (keys vr) ≤ total m' m'.chips r0) :
+    ∃ p, saPlace vr cs m locs vs none = .ok (p, []) := by
+  obtain ⟨hA, hNN, hunit'⟩ := unit_setup hnodup hcap hnosame hunit hprep
+  unfold saPlace
+  split
+  · exact ⟨[], rfl⟩
+  · simp only [hA, hprep, bind, Except.bind, pure, Except.pure]
+    rw [needOf_filter, ← needOf_perm _ _ _ hvs, ← total_perm m' r0 hlocs] at hsuff
+    have hnd : locs.Nodup := (List.Perm.nodup_iff hlocs).2 (chips_nodup m')
+    have hok : ∀ c ∈ locs, m'.ok c = true := fun c hc => (mem_chips_iff m' c).1 ((List.Perm.mem_iff hlocs).1 hc)
+    cases locs with
+    | nil => exact absurd (List.Perm.eq_nil (List.Perm.symm hlocs)) hne
+    | cons c0 rest =>
+      obtain ⟨out, hout⟩ := initLoop_complete vr r0 vs c0 rest m' [] hnd (hok c0 (by simp))
+        (fun c hc => hok c (by simp [hc])) hNN
+        (fun v hv => hunit' v (List.mem_filter.1 ((List.Perm.mem_iff hvs).1 hv)).1) hsuff
+      obtain ⟨m'', init⟩ := out
+      simp only [initialPlacement, hout]
+      exact ⟨mergeP init fixed, by simp [finalise, finaliseFrom, mergeP]⟩
+
 /-! ### non-vacuity: a problem with a same-chip group whose two members are both pinned (to the
 same chip), a global reservation, a resource exception, a custom vertex order and chip order
 satisfies every hypothesis, and both placers succeed on it -/
@@ -877,6 +959,32 @@ example : ∃ p, seqPlace unVR unCS unM none none = .ok p :=
         | zero => exact absurd rfl hi
         | succ j => simp [dem])
     (by rfl) (by intro v hv; exact hv) (by decide) (by decide) (by decide)
+
+private theorem unCapNN : NonNegCap unM := by
+  intro c _ i; apply dem_nonneg_of_all
+  simp only [cap, unM, aget]; intro x hx; simp at hx; omega
+
+private theorem unUnit : ∀ v d, (v, d) ∈ unVR → UnitDem 0 d := by
+  intro v d h
+  simp [unVR] at h
+  rcases h with ⟨_, rfl⟩ | ⟨_, rfl⟩ | ⟨_, rfl⟩
+  all_goals
+    refine ⟨fun i hi => ?_, by simp [dem]⟩
+    cases i with
+    | zero => exact absurd rfl hi
+    | succ j => simp [dem]
+
+/-- the same tight problem satisfies the hypotheses of the completeness theorems of the random placer
+and of the annealer's initial placement -/
+example (picks : List Chip) :
+    (∃ p, randPlace unVR unCS unM picks = .ok p) ∨ randPlace unVR unCS unM picks = .error .badOracle :=
+  randPlace_complete_unit unVR unCS unM { unM with res := [1], exc := [((0, 0), [0])] } [(o 0, (0, 0))]
+    picks 0 (by decide) unCapNN (by intro vs h; simp [unCS] at h) unUnit (by rfl) (by decide) (by decide)
+
+example : ∃ p, saPlace unVR unCS unM [(1, 0), (0, 0)] [o 2, o 1] none = .ok (p, []) :=
+  saPlace_initial_complete_unit unVR unCS unM { unM with res := [1], exc := [((0, 0), [0])] } [(o 0, (0, 0))]
+    [(1, 0), (0, 0)] [o 2, o 1] 0 (by decide) unCapNN (by intro vs h; simp [unCS] at h) unUnit (by rfl)
+    (by decide) (by decide) (by decide) (by decide)
 
 end example_
 
